@@ -17,6 +17,10 @@ func init() {
 			sc := newScriptConn([][]byte{append([]byte{}, buf...)})
 			conn := standard.NewConnForVerif(sc, 4096)
 			var h protocol.RequestHeader
+			if len(in) > 1 && in.N(1) == 1 {
+				// names are kept as sent; the framing decision is case-insensitive either way (the model's ci_compare)
+				h.DisableNormalizing()
+			}
 			err := req.ReadHeader(&h, conn)
 			var impl string
 			switch {
@@ -82,7 +86,11 @@ func init() {
 				if len(b) == 0 {
 					b = []byte("\n")
 				}
-				t.Do(In{H(b)}, true)
+				if t.R.Intn(3) == 0 {
+					t.Do(In{H(b), Nn(1)}, true)
+				} else {
+					t.Do(In{H(b)}, true)
+				}
 			}
 		}})
 }
